@@ -100,10 +100,22 @@ def gen_shape(rng, params):
 KINDS = ["method", "method", "model_method", "listener_method", "func", "classfunc", "partial", "async_method"]
 
 
+GUARD_FORMS = {      # role -> (transition keyword, expression template, value the callback must return to enable `go`)
+    "cond": ("cond", "{n}", True), "unless": ("unless", "{n}", False), "validators": ("validators", "{n}", None),
+    "cond_not": ("cond", "not {n}", False), "cond_bang": ("cond", "!{n}", False), "cond_and": ("cond", "{n} and yes", True),
+    "cond_and_r": ("cond", "yes and {n}", True), "cond_or": ("cond", "{n} or yes", False), "unless_not": ("unless", "not {n}", True),
+    "cond_paren": ("cond", "(({n}))", True), "cond_list": ("cond", "{n}", True),
+}
+NAMED_KINDS = ("method", "model_method", "listener_method", "async_method")
+
+
 def build_source(k, params, kind, group, pair_variant=None):
     sig = B.signature_source(params)
     defs = "\n".join(f"DEF_{p['name']} = 'DEF_{p['name']}'" for p in params if p["default"])
-    cbname = f"{group}_go" if kind in ("method", "model_method", "listener_method", "async_method") else f"cb_{k}"
+    cbname = f"{group}_go" if kind in NAMED_KINDS else f"cb_{k}"
+    guard = GUARD_FORMS.get(group)
+    if guard:
+        cbname = f"chk_{k}" if kind in NAMED_KINDS else cbname
     selfsig = "self" + (", " + sig if sig else "")
     body = "return NOTE(locals())"
     L = [defs, ""]
@@ -129,6 +141,16 @@ def build_source(k, params, kind, group, pair_variant=None):
     if kind == "classfunc":
         L += [f"    def {cbname}({selfsig}):", f"        {body}"]
         inline = f", {group}={cbname}"
+    if guard:
+        kwname, tmpl, _ret = guard
+        if kind in NAMED_KINDS or kind == "partial":
+            ref = repr(tmpl.format(n=cbname if kind != "partial" else "pcb"))
+        else:
+            ref = cbname           # function objects cannot be part of an expression string
+        if group == "cond_list":
+            ref = f"['yes', {ref}]"
+        inline = f", {kwname}={ref}"
+        L += ["    yes = True"]
     L += [f"    go = s0.to(s1{inline})", "    back = s1.to(s0)"]
     if kind == "method":
         L += [f"    def {cbname}({selfsig}):", f"        {body}"]
@@ -191,19 +213,24 @@ def compare(binding, observed, params):
     return exp == obs, exp, obs
 
 
-def run_one(rng, counters, violations, sigs, samples, kind=None, params=None, shapes=None, replaying=False):
+def run_one(rng, counters, violations, sigs, samples, kind=None, params=None, shapes=None, replaying=False, group=None):
     from statemachine import State, StateMachine
 
     k = uid()
     params = params or gen_signature(rng)
     kind = kind or rng.choice(KINDS)
-    group = rng.choice(["before", "on", "after"])
+    group = group or (rng.choice(["before", "on", "after"]) if rng.random() < 0.7 else rng.choice(sorted(GUARD_FORMS)))
+    if group in GUARD_FORMS and kind == "async_method" and group not in ("cond", "unless", "validators"):
+        kind = "method"          # coroutine names inside expressions are a recorded finding (W13), not C07's subject
+    if group in GUARD_FORMS and kind in ("func", "classfunc") and group not in ("cond", "unless", "validators", "cond_list"):
+        group = {"cond_not": "unless", "cond_bang": "unless", "cond_or": "unless", "unless_not": "cond"}.get(group, "cond")
     notes, tds = [], []
     tagger = Tagger()
+    ret = GUARD_FORMS[group][2] if group in GUARD_FORMS else None
 
     def note(loc):
         notes.append({k_: tagger.tag(v) for k_, v in loc.items()})
-        return None
+        return ret
 
     def td(event_data):
         tds.append(sorted(event_data.trigger_data.kwargs))
@@ -273,7 +300,10 @@ def run_one(rng, counters, violations, sigs, samples, kind=None, params=None, sh
                                "detail": f"observed {obs}", "witness": wit})
             continue
         if surplus or any(p["default"] for p in params):
-            sigs.add(h((kinds_seq, kind, min(len(shape["args"]), 5), bool(shape["ukw"]), bool(shape["reserved"]))))
+            sigs.add(h((kinds_seq, kind, min(len(shape["args"]), 5), bool(shape["ukw"]), bool(shape["reserved"]),
+                        group if group in GUARD_FORMS else "action")))
+        if group in GUARD_FORMS:
+            counters["guard_role_pairs"] = counters.get("guard_role_pairs", 0) + 1
         if len(samples) < 2 and surplus and len(params) >= 3:
             samples.append({"signature": B.signature_source(params), "kind": kind, "group": group, "shape": shape,
                             "observed_locals": obs})
@@ -779,5 +809,5 @@ def replay(witness):
     violations = []
     if "kind" in w:
         rng = random.Random(0)
-        run_one(rng, counters, violations, set(), [], kind=w["kind"], params=w["params"], shapes=[w["shape"]])
+        run_one(rng, counters, violations, set(), [], kind=w["kind"], params=w["params"], shapes=[w["shape"]], group=w.get("group"))
     return {"evaluations": 1, "violations": violations, "counters": counters}
